@@ -35,6 +35,8 @@ def reachable(arr, ntu, c):
 
 
 def build_trace(tier):
+    import random
+    rnd = random.Random(20 + seed())
     repo_import()
     from OpenPinch.utils.heat_exchanger import HX_Eff, HX_NTU, compute_LMTD_from_dts, compute_LMTD_from_ts
     from OpenPinch.lib import HeatExchangerTypes as HX
@@ -42,15 +44,22 @@ def build_trace(tier):
     passes = [1, 2, 3, 4]
     series = []
     sid = 0
+    n_off = 12 if tier == "thorough" else 3
     for a in ARR:
         member = getattr(HX, a)
-        for c4 in (range(0, 5) if a != "CondEvap" else [0]):     # condensing / evaporating: C_max is infinite, c = 0 by definition
-            c = c4 / 4.0
+        # lattice capacity ratios (closed forms apply) and seeded off-lattice ones (c4 = -1: relational clauses only)
+        cs = [(c4, c4 / 4.0) for c4 in (range(0, 5) if a != "CondEvap" else [0])]     # condensing / evaporating: c = 0 by definition
+        if a != "CondEvap":
+            cs += [(-1, round(rnd.uniform(0.01, 0.999), 4)) for _ in range(n_off)]
+        for c4, c in cs:
             for P in passes:
+                if c4 < 0:      # off-lattice NTU as well: an increasing random sequence in (0, 10]
+                    ntus = sorted({round(rnd.uniform(0.02, 10.0), 3) for _ in range(len(n4s))})
+                else:
+                    ntus = [n4 / 4.0 for n4 in n4s]
                 effM, effT, backM, backT, cf, reach, effBack = [], [], [], [], [], [], []
                 err = None
-                for n4 in n4s:
-                    ntu = n4 / 4.0
+                for ntu in ntus:
                     try:
                         if c == 0 and a in ("CrFMM", "CrFMUmax", "CrFMUmin"):
                             raise ZeroDivisionError      # c = 0 is a removable singularity of these closed forms: use c -> 0+
@@ -76,7 +85,8 @@ def build_trace(tier):
                         lst.append(int(round(v * M)) if math.isfinite(v) else -9 * M)
                     reach.append(bool(ok))
                 sid += 1
-                series.append(dict(id=f"{a}|c={c}|passes={P}", arr=a, c4=c4, passes=P, n4=n4s, effM=effM, effT=effT,
+                series.append(dict(id=f"{a}|c={c}|passes={P}", arr=a, c4=c4, c=c, passes=P,
+                                   n4=(n4s if c4 >= 0 else [0] * len(ntus)), ntuM=[int(round(x * M)) for x in ntus], effM=effM, effT=effT,
                                    backM=backM, backT=backT, cf=cf, reach=reach, effBack=effBack))
     lm = []
     ds = [-5, 0, 1, 2, 3, 5, 8, 13, 20, 21, 34, 50]
@@ -84,12 +94,27 @@ def build_trace(tier):
         for d2 in ds:
             refused = False
             L = Ls = 0
+            Lt = -1
             try:
                 L = int(round(float(compute_LMTD_from_dts(d1 / 10.0, d2 / 10.0)) * 100))
                 Ls = int(round(float(compute_LMTD_from_dts(d2 / 10.0, d1 / 10.0)) * 100))
             except ValueError:
                 refused = True
-            lm.append(dict(id=f"lmtd|{d1}|{d2}", d1=d1, d2=d2, L=L, Lswap=Ls, refused=refused))
+            try:    # the same end differences given as four temperatures: hot 100 -> 100 - x, cold (100 - x - d2) -> (100 - d1)
+                x = max(d1 - d2, 0) / 10.0 + 3.0
+                Lt = int(round(float(compute_LMTD_from_ts(100.0, 100.0 - x, 100.0 - x - d2 / 10.0, 100.0 - d1 / 10.0)) * 100))
+            except ValueError:
+                Lt = -1
+            lm.append(dict(id=f"lmtd|{d1}|{d2}", d1=d1, d2=d2, L=L, Lswap=Ls, Lts=Lt, refused=refused, fine=False))
+    # nearly equal pairs at 1e-6 K resolution (cancellation in (d1 - d2)/ln(d1/d2)); d in micro-kelvin
+    base = [1_000_000, 2_500_000, 10_000_000, 20_000_000]
+    gaps = [0, 1, 2, 5, 11, 40, 101, 230, 1000, 5003] + ([rnd.randrange(1, 20000) for _ in range(10)] if tier == "thorough" else [])
+    for b in base:
+        for g in gaps:
+            d1, d2 = b, b + g
+            L = int(round(float(compute_LMTD_from_dts(d1 / 1e6, d2 / 1e6)) * 1e6))
+            Ls = int(round(float(compute_LMTD_from_dts(d2 / 1e6, d1 / 1e6)) * 1e6))
+            lm.append(dict(id=f"lmtdfine|{d1}|{d2}", d1=d1, d2=d2, L=L, Lswap=Ls, Lts=L, refused=False, fine=True))
     E = [int(round(10000 * math.exp(-k / 16.0))) for k in range(0, 8 * 40 + 2)]
     return dict(E=E, series=series, lmtd=lm)
 
@@ -128,7 +153,7 @@ def check(prop, tier, run: Run, replay_case=None):
     byid = {s["id"]: s for s in data["series"]}
     byid.update({r_["id"]: r_ for r_ in data["lmtd"]})
     n = len(data["series"]) + len(data["lmtd"])
-    run.cov["evaluations"] = sum(len(s["n4"]) * 5 for s in data["series"]) + 2 * len(data["lmtd"])
+    run.cov["evaluations"] = sum(len(s["n4"]) * 5 for s in data["series"]) + 3 * len(data["lmtd"])
     run.cov["traces_validated_against_impl"] = n
     run.cov["exhaustive"] = True
     for tag, obj in res.lines:
@@ -137,5 +162,6 @@ def check(prop, tier, run: Run, replay_case=None):
                 run.violation(c, byid[obj["id"]], dict(id=obj["id"]))
     run.cov["distinct_nontrivial"] = sum(1 for s in data["series"] if s["c4"] > 0) + sum(1 for r_ in data["lmtd"] if r_["d1"] > 0 and r_["d2"] > 0 and r_["d1"] != r_["d2"])
     run.cov["samples"] = [data["series"][17], data["lmtd"][40]]
-    run.cov["rule"] = ("grid: 8 arrangements x 2 label forms x NTU = k/4 (k up to 40) x c in {0,1/4,1/2,3/4,1} x passes 1..4, one trace series per "
-                       "(arrangement, c, passes); LMTD: 12 x 12 end-difference pairs incl. non-positive, equal and nearly equal; non-trivial = c > 0 series and positive unequal pairs")
+    run.cov["rule"] = ("grid: 8 arrangements x 2 label forms x NTU = k/4 (k up to 40) x c in {0,1/4,1/2,3/4,1} x passes 1..4, plus seeded off-lattice (c, NTU) series "
+                       "judged by the relational clauses only; one trace series per (arrangement, c, passes); LMTD also from four temperatures and for "
+                       "nearly equal differences at 1e-6 K; LMTD: 12 x 12 end-difference pairs incl. non-positive, equal and nearly equal; non-trivial = c > 0 series and positive unequal pairs")
